@@ -64,7 +64,7 @@ class Obs:
     def __init__(self, line):
         self.crash = line.strip() == "CRASH"
         self.bad = None
-        self.tasks, self.convs, self.tiles, self.nalloc = {}, [], {}, []
+        self.tasks, self.tasksb, self.convs, self.tiles, self.nalloc = {}, {}, [], {}, []
         if self.crash:
             return
         if line.startswith("<"):
@@ -73,8 +73,9 @@ class Obs:
         try:
             for part in line.split(" ; "):
                 w = part.split()
-                if w[0] == "T":
-                    self.tasks[(int(w[1]), int(w[2]), int(w[3]))] = (w[4], w[5], unhex(w[6]) if len(w) > 6 else [])
+                if w[0] in ("T", "U"):
+                    (self.tasks if w[0] == "T" else self.tasksb)[(int(w[1]), int(w[2]), int(w[3]))] = \
+                        (w[4], w[5], unhex(w[6]) if len(w) > 6 else [])
                 elif w[0] == "X":
                     self.convs.append((w[1], w[2], int(w[3]), w[4], w[5]))
                 elif w[0] == "D":
@@ -195,8 +196,8 @@ class C18(Check):
             w = rest.split()
             if not w:
                 continue
-            b = blocks.setdefault(cur, {"T": [], "X": [], "D": [], "N": 0, "end": None})
-            if w[0] in ("T", "X", "D"):
+            b = blocks.setdefault(cur, {"T": [], "U": [], "X": [], "D": [], "N": 0, "end": None})
+            if w[0] in ("T", "U", "X", "D"):
                 b[w[0]].append(w[1:])
             elif w[0] == "N":
                 b["N"] = int(w[1])
@@ -214,8 +215,9 @@ class C18(Check):
             return ptr
         tasks = []
         for rk, b in blocks.items():
-            for w in b["T"]:
-                tasks.append(((int(w[0]), int(w[1]), int(w[2])), base(rk, w[3]), w[4], w[5] if len(w) > 5 else ""))
+            for kind in ("T", "U"):
+                for w in b[kind]:
+                    tasks.append(((int(w[0]), int(w[1]), int(w[2]), kind), base(rk, w[3]), w[4], w[5] if len(w) > 5 else ""))
         tasks.sort(key=lambda t: t[0])
         names = {}
 
@@ -225,7 +227,7 @@ class C18(Check):
                     names[q] = "f%d" % len(names)
                 return names[q]
             return q
-        tl = ["T %d %d %d %s %s %s" % (t[0][0], t[0][1], t[0][2], name_task(t[1]), t[2], t[3]) for t in tasks]
+        tl = ["%s %d %d %d %s %s %s" % (t[0][3], t[0][0], t[0][1], t[0][2], name_task(t[1]), t[2], t[3]) for t in tasks]
 
         def name_any(q):
             if isinstance(q, tuple):
@@ -313,12 +315,14 @@ class C18(Check):
                   "interface (MPI_Sendrecv). Modelled, not verified: MPI pack/unpack by type signature; Open MPI 4.1 behaviour on a "
                   "truncated MPI_Sendrecv to self (silent prefix copy when the send type is contiguous, fatal MPI_ERR_TRUNCATE "
                   "otherwise); arena memory management; task scheduling (the interpreter is sequential, generated programs are "
-                  "race free by construction). Not modelled: broadcast relays (runs use runtime_comm_coll_bcast=0), flows with "
-                  "several data, GPU copies.")
+                  "race free by construction). A consumer may have a second READ data flow fed by the same producer flow (repo slots are "
+                  "indexed by flow); control flows only gate tasks and carry nothing in the model. Not modelled: broadcast relays (runs "
+                  "use runtime_comm_coll_bcast=0), producers with several output flows, GPU copies.")
     technique = ("Coq proof (conversion for all layouts and tile sizes through C19; promise invariants) + observation differential: "
                  "generated JDF -> parsec-ptgpp -> cc -> run on 1..4 MPI ranks, compared with the extracted reference interpreter; "
                  "property oracle on the observations alone")
-    rule = ("a case = random tree of 2..5 task classes (fan-out, chains, replicated consumers) with random [type]/[type_remote]/"
+    rule = ("a case = random tree of 2..5 task classes (fan-out, chains, replicated consumers; plus a family with two data flows "
+            "per consumer fed by several messages of one producer flow and gated by control flows) with random [type]/[type_remote]/"
             "[type_data] attributes over 5 shapes, tile 2..5, element 1/4/8 bytes, random placement, each program run under up to 3 "
             "configurations (1 rank; 2..4 ranks with and without short messages; MPI_THREAD_MULTIPLE or SERIALIZED). Non-trivial = at "
             "least one typed dependency or memory access; distinct = program text + number of ranks + short flag")
@@ -374,6 +378,12 @@ class C18(Check):
             if len(mine) >= 2 or (mine and r.chance(1, 4)):
                 out += mine
                 i += 1
+        # the family with a second data flow and control gates (tools/gen_reshape.py:gen_twoflow), two ranks, rendez-vous
+        for _ in range(int(os.environ.get("VERIF_C18_NTWO", "4" if self.tier == "quick" else "40"))):
+            p = G.gen_twoflow(r)
+            for q in (p, G.with_config(p, 1, 1)) if r.chance(1, 3) else (p,):
+                if G.declared(q)[0]:
+                    out.append(G.to_case(q) + " V %d" % self.model_fixed)
         return self.model_filter(out)
 
     def corpus(self):
@@ -478,8 +488,11 @@ class C18(Check):
         for ci, C in enumerate(p.classes):
             for k in range(p.nt):
                 for r in range(C.R):
-                    if (ci, k, r) not in O.tasks:
+                    if (ci, k, r) not in O.tasks or (C.inp2 and (ci, k, r) not in O.tasksb):
                         return ("instance C%d(%d,%d) did not run" % (ci, k, r), "missing-task", None)
+        for key, (ptr, dtt, data) in O.tasksb.items():
+            if len(data) != nb:
+                return ("C%d(%d,%d).B logged %d bytes (pointer %s)" % (key + (len(data), ptr)), "flowB", "null")
         after = {}
         for key, (ptr, dtt, data) in O.tasks.items():
             if len(data) != nb:
@@ -519,7 +532,8 @@ class C18(Check):
                             if b not in got and R[b] != 0xEE:
                                 return ("%s: byte %d of the fresh copy is outside %s but holds %02x" % (where, b, SHN[dst], R[b]),
                                         "read", "unselected")
-        # O1: delivery along every edge
+        # O1: delivery along every edge (both data flows of a consumer)
+        delivered = {}
         for ci, C in enumerate(p.classes):
             if C.R != 1:
                 continue
@@ -532,9 +546,10 @@ class C18(Check):
                 seen_local = 0
                 for u in ss:
                     key = (u["q"], u["k"], u["r"])
-                    tptr, tdtt, R = O.tasks[key]
+                    tptr, tdtt, R = (O.tasks if u["flow"] == "A" else O.tasksb)[key]
                     local = (u["rank"] == me)
-                    where = "C%d(%d,%d) <- C%d(%d,0)" % (key + (ci, k))
+                    where = "C%d(%d,%d)%s <- C%d(%d,0)" % (key + (".B" if u["flow"] == "B" else "", ci, k))
+                    delivered.setdefault(key, {})[u["flow"]] = (ci, k, local, u["to"], u["tro"], u["ti"], u["tri"], tptr)
                     if local:
                         exp = self.expected_local(d, u["to"], u["ti"])
                         cls = "local-later" if seen_local else "local-first"
@@ -577,11 +592,19 @@ class C18(Check):
                         continue
                     exp = self.expected_local(d, u["to"], u["ti"])
                     if exp is not None:
-                        groups.setdefault(exp, set()).add(O.tasks[(u["q"], u["k"], u["r"])][0])
+                        groups.setdefault(exp, set()).add((O.tasks if u["flow"] == "A" else O.tasksb)[(u["q"], u["k"], u["r"])][0])
                 for exp, ptrs in groups.items():
                     if len(ptrs) > 1:
                         return ("consumers of C%d(%d,0) with the same conversion %s -> %s hold different copies %s"
                                 % (ci, k, SHN[exp[0]], SHN[exp[1]], sorted(ptrs)), "local-later", "not-shared")
+        # two data flows of one task that were sent as two different messages, or converted differently, are two copies
+        for key, fl in delivered.items():
+            if "A" in fl and "B" in fl:
+                a, b = fl["A"], fl["B"]
+                same = a[:2] == b[:2] and a[2] == b[2] and ((a[3], a[5]) == (b[3], b[5]) if a[2] else (a[3], a[4], a[6]) == (b[3], b[4], b[6]))
+                if not same and a[7] == b[7]:
+                    return ("C%d(%d,%d): flows A and B were delivered differently (%s / %s) but alias one copy %s"
+                            % (key + (a[3:7], b[3:7], a[7])), "remote" if not a[2] else "local-later", "aliased-flows")
         # O4: at most one conversion per (source copy, source type, destination type) into a fresh copy
         seen = set()
         dtt_of = {ptr: dtt for (ptr, dtt, _) in O.tasks.values()}
